@@ -276,8 +276,11 @@ def cross_check(task_factory, seed, want=3):
     return res
 
 
-def native_clause_violated(task, ns, args, kind, clause_src):
-    """run the real function on args and evaluate the clause natively: True if violated"""
+def native_clause_violated(task, ns, args, kind, clause_src, lenient=False):
+    """run the real function on args and evaluate the clause natively: True if violated.
+    lenient: an exception the contract does not list, or a clause that cannot be evaluated natively, is NOT taken
+    as a violation (used when the inputs were not produced from a counter-model: a witness object assembled field
+    by field may be inconsistent in ways the real constructors exclude)"""
     import copy
     try:
         old_args = copy.deepcopy(args)
@@ -295,15 +298,17 @@ def native_clause_violated(task, ns, args, kind, clause_src):
         return any(k.__name__ in excs for k in type(e).__mro__)
     if kind == 'post':
         if okind == 'raise':
-            return not permitted(val)
+            return (not permitted(val)) and not lenient
         env['result'] = val
         try:
             src, olds = rewrite_old(clause_src)
             for k, osrc in enumerate(olds):
                 env[f'__old_{k}'] = eval(osrc, old_env)
             return not eval(src, env)
+        except NotImplementedError:
+            return False          # clause mentions an uninterpreted specification function
         except Exception:  # noqa
-            return True
+            return not lenient
     if kind == 'raises':
         for en, cond in c.raises.items():
             if cond is None:
@@ -315,7 +320,7 @@ def native_clause_violated(task, ns, args, kind, clause_src):
             got = okind == 'raise' and any(k.__name__ == en for k in type(val).__mro__)
             if want != got:
                 return True
-        return okind == 'raise' and not permitted(val)
+        return okind == 'raise' and not permitted(val) and not lenient
     if kind in ('nodiv0', 'index', 'domain'):
         return okind == 'raise' and not permitted(val)
     if kind == 'frame':
@@ -324,7 +329,7 @@ def native_clause_violated(task, ns, args, kind, clause_src):
     return False
 
 
-def native_search(task, kind, clause_src, seed, tries=600):
+def native_search(task, kind, clause_src, seed, tries=600, lenient=False):
     """seeded search for a concrete input on which the real code violates the clause.
     Returns {param: python-source} or None."""
     ns = native_namespace(task)
@@ -344,7 +349,7 @@ def native_search(task, kind, clause_src, seed, tries=600):
         if not requires_ok(task, args, ns):
             continue
         try:
-            if native_clause_violated(task, ns, args, kind, clause_src):
+            if native_clause_violated(task, ns, args, kind, clause_src, lenient=lenient):
                 return srcs
         except NativeTimeout:
             continue
